@@ -1,9 +1,9 @@
-\* generation: cases for the replay
+\* generation (special family, replayed in every run under two fixed option sets): input landmarks in plain, ./x and /x spellings
 CONSTANTS
-    UseEntries = {1, 2, 3, 6, 7}
-    PrioAlphabet = {"l2", "l", "/a/b", ""}
-    MaxTar = 3
-    MaxPrio = 2
+    UseEntries = {3, 9, 10, 13, 14, 15}
+    PrioAlphabet = {"a/b", "./.prefetch.landmark", "x"}
+    MaxTar = 2
+    MaxPrio = 1
     WithLayout = FALSE
     LayoutOpts <- OptsNone
     ImplicitParents = TRUE
